@@ -73,7 +73,7 @@ type Layout struct {
 	Multi     int    `json:"multi"`      // 0 inline //, 1 /* */ on one line, 2 /* */ with the note on its own line
 	Quote     int    `json:"quote"`      // rule names: 0 bare, 1 quoted, 2 quoted at the top / bare in nested rule-sets, 3 the reverse, 4 every second name
 	Pad       int    `json:"pad"`        // 0..2 extra blanks around tokens
-	Comments  int    `json:"comments"`   // 0 none, 1 '#' lines, 2 '###' blocks and end-of-line '#', 3 like 1 and end-of-line, but every comment is empty ('#' and nothing else)
+	Comments  int    `json:"comments"`   // 0 none, 1 '#' lines, 2 '###' blocks and end-of-line '#', 3 like 1 and end-of-line, but every comment is empty ('#' and nothing else), 4 like 2 plus a two-line ### block between a scalar and its annotation
 	LeadBlank int    `json:"lead_blank"` // blank lines before
 	TailBlank int    `json:"tail_blank"` // blank lines after
 }
@@ -202,6 +202,12 @@ func (l Layout) node(sb *strings.Builder, n Node, a Ann, notes []string, indent,
 	ann := l.annotation(a, notes, indent)
 	switch n.K {
 	case "scalar", "ref":
+		if l.Comments == 4 && ann != "" {
+			// a block comment of two lines between the value and its annotation: presentation only, the annotation
+			// on the comment's closing line still belongs to the value
+			sb.WriteString(indent + prefix + n.Text + l.sp() + comma + " ###" + l.NL + indent + "  a block comment between value and annotation ###" + ann)
+			return
+		}
 		sb.WriteString(indent + prefix + n.Text + l.sp() + comma + ann)
 		if l.Comments >= 2 && ann == "" {
 			sb.WriteString(" " + l.comment("end-of-line user comment"))
@@ -224,7 +230,7 @@ func (l Layout) node(sb *strings.Builder, n Node, a Ann, notes []string, indent,
 			if l.Comments >= 1 && i == 1 {
 				sb.WriteString(indent + "  " + l.comment("a user comment between members") + l.NL)
 			}
-			if l.Comments == 2 && i == 0 {
+			if (l.Comments == 2 || l.Comments == 4) && i == 0 {
 				sb.WriteString(indent + "  ###" + l.NL + indent + "  a block" + l.NL + indent + "  user comment" + l.NL + indent + "  ###" + l.NL)
 			}
 			pre := ""
